@@ -3,7 +3,7 @@ import core
 from checks.generic import COMMON_TRUSTED, compile_gen, first_index
 
 PROPS = ["c15_roundtrip", "c15_sync_mirror", "c15_sync_completes", "c15_mirror_reads", "c15_atomic",
-         "c15_restart_keeps_stores", "c15_restart_outage_reads",
+         "c15_restart_keeps_stores", "c15_restart_outage_reads", "c15_copier_turn", "c15_copier_lag", "c15_ghost_is_run",
          "c15_outage_reads", "c15_outage_writes", "c15_dead_frozen", "c15_cleanup_invisible",
          "c15_cleanup_purges", "c15_reads_unexpired", "c15_old_outage_reported_refuted", "c15_old_mirror_refuted",
          "c15_old_atomic_refuted_cursor", "c15_old_atomic_refuted_eager", "c15_old_stale_writeback_refuted",
